@@ -121,6 +121,11 @@ func (w *world) scriptedPeer(replies []string, stop <-chan struct{}) {
 				rep = replies[n-1]
 			}
 			rep = strings.ReplaceAll(rep, "{ID}", esc(id))
+			if _, clean := wireElement([]byte(rep)); !clean {
+				// damaged reply: make sure it ends (an element left open would
+				// just make the session wait for more input)
+				rep += "</stream:stream>"
+			}
 			if taken, _ := w.send([]byte(rep)); !taken {
 				return
 			}
@@ -435,6 +440,14 @@ func runHelper(c Case) Obs {
 
 	ctx, cancel := context.WithTimeout(w.ctx, 4*watchdog)
 	defer cancel()
+	// an application stops waiting for replies when Serve has returned
+	go func() {
+		select {
+		case <-w.done:
+			cancel()
+		case <-ctx.Done():
+		}
+	}()
 	hdone := make(chan struct{})
 	var herr error
 	var hp, hst string
